@@ -637,7 +637,55 @@ def run_c03(ctx):
 _run_ring = run
 
 
+def runtime_single_writer_stage(ctx):
+    """C02's theorems are about a channel with ONE writer (the ring has one write cursor).  This stage checks that precondition on the
+    WHOLE runtime (acquire.c + source/filter/sink + channel.c compiled from the working tree against the deterministic scheduler and the
+    mock driver of fam/pipe): in every run -- plain, aborted, with a monitor, with frame averaging, and with averaging switched off / on
+    by acquire_configure while the acquisition is running (the source then changes queues under the await_filter_reset handshake) --
+    no queue ever has two threads holding a write mapping at once (harness: V ... two-writers)."""
+    import sys as _sys
+    pdir = os.path.join(vlib.VERIF, "fam", "pipe")
+    if pdir not in _sys.path:
+        _sys.path.insert(0, pdir)
+    import pipelib
+    exe = pipelib.build(ctx, name="h_pipe_c02")
+    n = 3000 if ctx.tier == "thorough" else 320
+    kinds = ["avgswitch", "avgswitch", "avgswitch", "avg", "abort", "monitor"]
+    cases = []
+    import glob as _glob
+    for f in sorted(_glob.glob(os.path.join(vlib.VERIF, "corpus", "pipe", "*.prog"))):      # former failures of this stage first
+        if "expect-unfixed: C02" in open(f).read():
+            prog, _ = pipelib.load_prog(f)
+            meta = pipelib.meta_from_prog(prog)
+            meta["kind"] = "corpus"
+            cases.append((prog, meta))
+    ctx.extra["runtime_stage_corpus"] = len(cases)
+    cases += [pipelib.scenario(ctx.rng, ctx.rng.choice(kinds)) for _ in range(n)]
+    results = vlib.parallel(lambda c: pipelib.run_prog(exe, c[0]), cases)
+    nsw = 0
+    for (prog, meta), (rc, lines, err) in zip(cases, results):
+        ctx.case("runtime\n" + "\n".join(prog), nontrivial=any(" wmap ok " in l for l in lines))
+        ctx.count("runtime:kind:" + meta["kind"])
+        nw = sum(1 for l in lines if " wmap ok " in l)
+        ctx.count("runtime:write mappings checked", nw)
+        if meta["kind"] == "avgswitch" and any(l.startswith("W ") and " sink.in wmap ok" in l for l in lines) and any(" filter.in wmap ok" in l or " filt.in wmap ok" in l for l in lines):
+            nsw += 1
+        for l in lines:
+            if l.startswith("V s") and "two-writers" in l:
+                ctx.violation("[runtime] two threads hold a write mapping of the same queue at once (the channel has one write cursor: both are handed "
+                              "the same bytes; the first unmap commits the other's unfinished region, which a reader may then be given): " + l[:200],
+                              {"program": prog, "log_line": l, "how": "python3 fam/pipe/tryprog.py <this file> .build/%s/h_pipe_c02" % ctx.prop},
+                              key="runtime-two-writers-on-one-queue")
+                break
+        ctx.traces_validated += 1
+    ctx.count("runtime:runs in which the source wrote to both queues (averaging switched while running)", nsw)
+    ctx.notes.append("runtime stage: %d whole-runtime runs; the single-writer precondition of the ring theorems held in every one" % n)
+
+
 def run(ctx):
     if ctx.prop == "C03":
         return run_c03(ctx)
-    return _run_ring(ctx)
+    r = _run_ring(ctx)
+    if ctx.prop == "C02":
+        runtime_single_writer_stage(ctx)
+    return r
